@@ -54,9 +54,12 @@ func init() {
 				op.Op = "select"
 			case k < 26:
 				op.Op = "read-conn"
-			case k < 28:
+			case k < 27:
 				key += 2
 				op.Op, op.Key = "txn", key-1
+			case k < 28:
+				key += 2
+				op.Op, op.Key = "txn-set-wt", key-1
 			default:
 				op.Op = "advance"
 			}
@@ -155,6 +158,44 @@ func runC15Conn(x *Exec) {
 						return
 					}
 					st[i].dl = time.Time{}
+				case "txn-set-wt":
+					// write_time set in the middle of a transaction applies to the statements issued after it and stays set after COMMIT
+					if !st[i].dl.IsZero() && st[i].dl.Before(time.Now()) {
+						return
+					}
+					now := time.Now()
+					firstWT := now.UnixNano()
+					if !st[i].wt.IsZero() {
+						firstWT = st[i].wt.UnixNano()
+					}
+					t := base.Add(time.Duration(op.Secs+7000) * time.Second)
+					var err error
+					if _, err = c.Exec("BEGIN"); err == nil {
+						if _, err = c.Exec(fmt.Sprintf("insert into %s values (?,?)", ts[i]), op.Key, oi); err == nil {
+							if _, err = c.Exec("update s3db_conn set write_time=?", fmtSec(t)); err == nil {
+								if _, err = c.Exec(fmt.Sprintf("insert into %s values (?,?)", ts[i]), op.Key+1, oi); err == nil {
+									_, err = c.Exec("COMMIT")
+								}
+							}
+						}
+						if err != nil {
+							c.Exec("ROLLBACK")
+						}
+					}
+					if err != nil {
+						x.Fail("C15-unexpected-error", "%s: %v", desc, err)
+						return
+					}
+					st[i].wt = t
+					expectMod[i][op.Key], expectMod[i][op.Key+1] = firstWT, t.UnixNano()
+					live[i][op.Key], live[i][op.Key+1] = true, true
+					rows, rerr := c.Query("select write_time from s3db_conn")
+					x.Check()
+					if rerr != nil || len(rows) != 1 || rows[0][0] != fmt.Sprintf("t:%q", fmtSec(t)) {
+						x.Fail("C15-conn-readback", "%s: write_time was set to %s inside the transaction; after COMMIT s3db_conn shows %s (%v)", desc, fmtSec(t), RowsString(rows), rerr)
+						return
+					}
+					x.Probe("write-time-set-inside-transaction")
 				case "read-conn":
 					rows, err := c.Query("select deadline, write_time from s3db_conn")
 					x.Check()
